@@ -132,6 +132,16 @@ class Interp:
         individually read references only, which is not enough for quantified clauses over list elements."""
         I_ = z3.IntSort()
         done = set()
+        # (C19) fields DECLARED in the sidecars with a type that mentions the class are touched first, so that the fact is
+        # also stated for a field the path reads only after the allocation (touching only names the array, it assumes nothing)
+        for cn, fl in self.registry.fields.items():
+            for f, tstr in fl.items():
+                if isinstance(tstr, str) and clsname in tstr:
+                    try:
+                        owner_c, fty = self.field(cn, f)
+                        self.heap.get(owner_c, f, fty)
+                    except Unsupported:
+                        continue
         for (owner, f), cur in list(self.heap.arrays.items()):
             try:
                 ty = self.field(owner, f)[1]
@@ -146,7 +156,7 @@ class Interp:
                         continue
                     done.add(arr.get_id())
                     o = self.ctx.fresh_const(I_, "fo")
-                    k = self.ctx.fresh_const(sym.sort_of(ty.k), "fk")
+                    k = self.ctx.fresh_const(sym.dict_ksort(ty), "fk")
                     cell = V(ty, z3.Select(arr, o))
                     el = z3.Select(sym.dict_val(cell), k)
                     self.ctx.assume(z3.ForAll([o, k], z3.Implies(z3.Select(sym.dict_dom(cell), k), el != r), patterns=[el]))
@@ -256,6 +266,12 @@ class Interp:
                 return FuncRef(m2, m2.functions[n])
         if n in ("math", "os", "time", "binascii", "logging", "ipaddress", "struct", "events", "tls") or n in self.registry.module_names:
             return ModRef(n)
+        from .source import BUILTIN_EXC
+
+        if n in BUILTIN_EXC and not self.spec:
+            # (C19) a builtin exception CLASS used as a value (`waiter.set_exception(ConnectionError)`): an opaque constant,
+            # one per class name; nothing can be done with it except passing it on
+            return V(TAny, z3.Const("excclass_" + n, z3.IntSort()))
         raise Unsupported("unbound name %s" % n)
 
     def const_value(self, c):
@@ -392,6 +408,28 @@ class Interp:
             tbl = self.dispatch_table(base, ty.cls, attr_m)  # constant table of bound methods (dispatch.py)
             if tbl is not None:
                 return tbl
+            if not self.spec:
+                # (C19) data attribute that the STATIC class does not declare but subclasses do (`event.stream_id` on a
+                # QuicEvent after an isinstance test): decided by the dynamic class tag - for each subclass (known to the
+                # index) that declares the field, on the paths where the object is exactly of that class the field is
+                # read there; on the remaining paths Python raises AttributeError.  (An isinstance test earlier on the
+                # path has fixed the tag, so the other branches are infeasible and pruned.)
+                subs = []
+                for dn in sorted(self.index.classes):
+                    di = self.index.cls(dn)
+                    if di is None or di is info or not any(c is info for c in self.index.mro(di)):
+                        continue
+                    try:
+                        if attr_m in self.model(dn).fields:
+                            subs.append(dn)
+                    except Unsupported:
+                        continue
+                if subs:
+                    dyn = self.heap.read("object", "__class__", TInt, base.t).t
+                    for dn in subs:
+                        if self.ctx.branch(dyn == self.class_id(dn)):
+                            return self.read_field(V(TRef(dn), base.t), attr_m)
+                    raise PyRaise("AttributeError", implicit="%s object without attribute %s" % (ty.cls, attr), site=getattr(node, "lineno", None))
             raise Unsupported("unknown attribute %s.%s" % (ty.cls, attr))
         if ty in (TBytes, TStr) or isinstance(ty, (TList, TDict, TSet)):
             return BoundMethod(base, None, attr)
@@ -533,8 +571,8 @@ class Interp:
         d = sym.dict_empty(ty)
         dom, val = sym.dict_dom(d), sym.dict_val(d)
         for k, v in zip(ks, vs):
-            dom = z3.Store(dom, sym.coerce(k, ty.k).t, True)
-            val = z3.Store(val, sym.coerce(k, ty.k).t, sym.coerce(v, ty.v).t)
+            dom = z3.Store(dom, self.dict_key(ty, k), True)
+            val = z3.Store(val, self.dict_key(ty, k), sym.coerce(v, ty.v).t)
         return sym.dict_mk(ty, dom, val)
 
     def e_Set(self, node, env):
@@ -880,7 +918,7 @@ class Interp:
         if isinstance(ty, TTuple):
             return z3.Or(*[sym.equal(sym.tuple_get(cont, i), item) for i in range(len(ty.items))])
         if isinstance(ty, TDict):
-            return z3.Select(sym.dict_dom(cont), sym.coerce(item, ty.k).t)
+            return z3.Select(sym.dict_dom(cont), self.dict_key(ty, item))
         if isinstance(ty, TSet):
             return z3.Select(cont.t, self.set_key(ty, item))
         if isinstance(ty, TList):
@@ -917,6 +955,17 @@ class Interp:
         if ty.k == TBytes:
             if isinstance(item.ty, TOpt):
                 raise Unsupported("Optional[bytes] as set element")
+            self.ctx.axioms.setdefault("bkey", sym.bkey_axiom())
+            return sym.bkey(sym.coerce(item, TBytes).t)
+        return sym.coerce(item, ty.k).t
+
+    def dict_key(self, ty, item):
+        """(C19) index of the key `item` in the dom/val arrays of a dict of type `ty`.  Keys of dict[bytes, V] are
+        identified by sym.bkey (value identity of the byte string, as Python's hash/eq on bytes); the bkey axiom is
+        handed to the solver on every path that uses it.  Every other key type: the coerced key term itself."""
+        if ty.k == TBytes:
+            if isinstance(item.ty, TOpt):
+                raise Unsupported("Optional[bytes] as dict key")
             self.ctx.axioms.setdefault("bkey", sym.bkey_axiom())
             return sym.bkey(sym.coerce(item, TBytes).t)
         return sym.coerce(item, ty.k).t
@@ -972,9 +1021,9 @@ class Interp:
             self.ctx.assume(z3.And(0 <= t, t <= 255))
             return V(TInt, t)
         if isinstance(ty, TDict):
-            k = sym.coerce(idx, ty.k)
-            self.fail(z3.Select(sym.dict_dom(base), k.t), "KeyError", "missing dict key", node)
-            v = V(ty.v, z3.Select(sym.dict_val(base), k.t))
+            k_t = self.dict_key(ty, idx)
+            self.fail(z3.Select(sym.dict_dom(base), k_t), "KeyError", "missing dict key", node)
+            v = V(ty.v, z3.Select(sym.dict_val(base), k_t))
             for f in sym.wf(v):
                 self.ctx.assume(f)
             if isinstance(ty.v, TRef):
